@@ -49,7 +49,8 @@ def run(tier, seed):
     max_rows = 3 if tier == "quick" else 4
     cells = [(t, s) for t in TASKS for s in STAMPS]
     idents = {t: TaskIdentifier.from_str(t) for t in TASKS}
-    selections = [None] + [list(c) for k in (1, 2) for c in itertools.combinations(TASKS, k)] + [["//:a", "//:a"][:1]]
+    # None = "everything"; an EMPTY list = "the named task's closure has no archivable task" = nothing at all
+    selections = [None, []] + [list(c) for k in (1, 2) for c in itertools.combinations(TASKS, k)]
     acc = {n: {"ev": 0, "nt": 0, "fails": [], "nf": 0, "samples": []} for n in
            ("C11.sql.selection_queries_match_the_abstract_table", "C08.sql.last_timestamp_is_the_table_maximum",
             "C12.sql.transactions_are_invisible_until_commit")}
@@ -182,17 +183,60 @@ def run(tier, seed):
                         shutil.rmtree(os.path.join(scratch, d), ignore_errors=True)
     finally:
         shutil.rmtree(scratch, ignore_errors=True)
+    # ---- C20 / C12: identifiers read back from an index (the index inside an archive is external input) go through
+    # the identifier grammar: a row that is not an identifier is rejected, never turned into a path
+    import sqlite3
+    import conductor.errors as errors
+    foreign = acc.setdefault("C20.sql.rows_read_back_are_checked_against_the_identifier_grammar", {"ev": 0, "nt": 0, "fails": [], "nf": 0, "samples": []})
+    scratch2 = tempfile.mkdtemp(prefix="verif-", dir="/dev/shm" if os.path.isdir("/dev/shm") and os.access("/dev/shm", os.W_OK) else None)
+    try:
+        bad_rows = ["//res.v2:exp", "//a/../b:c", "//a:b\n", "a:b c", "//a//b:c", "//a:b:c", "", "//../x:y", "//a:.."]
+        good_rows = ["//:a", "//x/y:c", "//x/:b"]
+        for k, ident_str in enumerate(bad_rows + good_rows):
+            db = pathlib.Path(scratch2, "f%d" % k, "idx.sqlite")
+            VersionIndex.create_or_load(db)._conn.close()
+            c = sqlite3.connect(str(db))
+            c.execute("INSERT INTO version_index (task_identifier, timestamp, git_commit_hash, has_uncommitted_changes) VALUES (?, ?, ?, ?)", (ident_str, 7, None, 0))
+            c.commit()
+            c.close()
+            vi = VersionIndex.create_or_load(db)
+            foreign["ev"] += 1
+            inp = {"stored_task_identifier": ident_str}
+            try:
+                rows = vi.get_all_versions()
+                got = "accepted:" + ",".join(str(t) for t, _v in rows)
+            except errors.ConductorError as ex:
+                got = "rejected:" + type(ex).__name__
+            except Exception as ex:      # noqa
+                got = "raw:" + type(ex).__name__
+            vi._conn.close()
+            if ident_str in bad_rows:
+                foreign["nt"] += 1
+                if len(foreign["samples"]) < 2:
+                    foreign["samples"].append(inp)
+                if not got.startswith("rejected"):
+                    foreign["nf"] += 1
+                    if len(foreign["fails"]) < 5:
+                        foreign["fails"].append({"clause": "rows_checked", "class": "non-identifier-row-" + got.split(":")[0], "input": inp, "expected": "a ConductorError (InvalidTaskIdentifier)", "observed": got})
+            elif not got.startswith("accepted"):
+                foreign["nf"] += 1
+                if len(foreign["fails"]) < 5:
+                    foreign["fails"].append({"clause": "rows_checked", "class": "valid-row-rejected", "input": inp, "expected": "accepted", "observed": got})
+    finally:
+        shutil.rmtree(scratch2, ignore_errors=True)
     wall = time.time() - t0
     scope = "tasks %r x timestamps %r: every table with <= %d rows x every insertion order x task selections x latest flag" % (TASKS, STAMPS, max_rows)
     props = {"C11.sql.selection_queries_match_the_abstract_table": ["C11", "C05", "C13"],
              "C08.sql.last_timestamp_is_the_table_maximum": ["C08"],
-             "C12.sql.transactions_are_invisible_until_commit": ["C12", "C06", "C08"]}
+             "C12.sql.transactions_are_invisible_until_commit": ["C12", "C06", "C08"],
+             "C20.sql.rows_read_back_are_checked_against_the_identifier_grammar": ["C20", "C12", "C11"]}
     rules = {"C11.sql.selection_queries_match_the_abstract_table": "distinct (table, insertion order, selection, latest); non-trivial = latest selection on a table where two tasks share a timestamp",
              "C08.sql.last_timestamp_is_the_table_maximum": "distinct (table, insertion order); non-trivial = rows not inserted in timestamp order",
-             "C12.sql.transactions_are_invisible_until_commit": "distinct copies followed by commit or rollback, observed through a second connection; non-trivial = at least one row copied"}
+             "C12.sql.transactions_are_invisible_until_commit": "distinct copies followed by commit or rollback, observed through a second connection; non-trivial = at least one row copied",
+             "C20.sql.rows_read_back_are_checked_against_the_identifier_grammar": "distinct stored strings (9 outside the grammar, 3 inside); non-trivial = outside the grammar"}
     out = []
     for name, a in acc.items():
-        out.append(common.result(name, props[name], FUNCTION, scope, exhaustive=(max_rows <= 3), evaluations=a["ev"], distinct_nontrivial=a["nt"],
+        out.append(common.result(name, props[name], FUNCTION, scope if not name.startswith("C20") else "an index file with one row whose task_identifier column holds the given string, read with get_all_versions()", exhaustive=(max_rows <= 3), evaluations=a["ev"], distinct_nontrivial=a["nt"],
                                  rule=rules[name], failures=a["fails"], samples=a["samples"], wall_s=wall / 3, n_failures=a["nf"]))
     return out
 
